@@ -62,7 +62,15 @@ AllDeviations == {"NoLenUntilClose", "ClPlus", "TeLenient", "LenientName",
                   \*   is forwarded as a Content-Length: N message with M body bytes (a defect class, never the code's behaviour)
                   \* H2ConnectOrdinary: an HTTP/2 CONNECT carrying :scheme and :path (malformed, RFC 9113 8.5) treated as an
                   \*   ordinary request and written to an HTTP/1.1 backend as "CONNECT /p HTTP/1.1" (before fix: commit 2577ced)
-                  "HeadRequestExempt", "H2ConnectOrdinary"}
+                  "HeadRequestExempt", "H2ConnectOrdinary",
+                  \* The RESPONSE may be complete before the REQUEST is (a backend that answers from the request head: HEAD):
+                  \* ReuseFrontUnread: mux/h1.rs kept the HTTP/1.1 frontend connection alive and reset its slot although part
+                  \*   of the body the request head announced had not been read yet: those bytes were then parsed as the head
+                  \*   of the NEXT request ("helloGET /sentinel HTTP/1.1") - before fix: commit 54f6c21
+                  \* ReuseBackUnwritten: mux/h1.rs put an HTTP/1.1 backend connection back into the keep-alive pool although
+                  \*   the request on it was not written completely (the HTTP/2 client abandoned the stream after the early
+                  \*   answer): the backend read the next request written there as the missing body - before fix: commit f073bfa
+                  "ReuseFrontUnread", "ReuseBackUnwritten"}
 ASSUME Deviations \subseteq AllDeviations
 Dev(d) == d \in Deviations
 
@@ -168,7 +176,14 @@ StrictRead(w) == SR(w, 1, <<>>)
 ---------------------------------------------------------------------------
 (* Result records *)
 
+\* early: an environment choice carried by a few H1 cases - the backend answers the request from its head (the recording
+\* backend does so for HEAD) BEFORE the body the head announces has reached sozu (the client sends it after the answer).
+Early(c) == "early" \in DOMAIN c /\ c.early
+
 \* cls: "fwd" | "r400" | "r404" | "rst" | "goaway" | "close"
+\*      | "early"  (H1) the client holds the backend's answer, given from the request head; sozu did not wait for the rest
+\*                 of the request and closed both connections: the backend read a prefix of the request, nothing after it
+\*      | "cancel" (H2) the client abandoned the stream (RST_STREAM) after HEADERS without END_STREAM
 \* partial : a prefix of the probe's message may already be on a backend connection when the
 \*           rejection happens (body-time rejections); that connection is then closed.
 \* complete: the request as understood so far (exactly Content-Length bytes) may have been delivered
@@ -268,6 +283,14 @@ H1Run(c) ==
       R(f, n) == Req(rl.method, rl.target, auth, f, n)
   IN IF rl.bad \/ st.err \/ teBad \/ clBad \/ auth = "" THEN Result("r400", <<>>, <<>>, FALSE, FALSE)
      ELSE IF rl.kind = "asterisk" THEN Result("r404", <<>>, <<>>, FALSE, FALSE)  \* OPTIONS *: no frontend for path "*"
+     \* The answer arrives (and is relayed) while the announced body is still awaited. mux/h1.rs: the connection is kept
+     \* alive only if the REQUEST was read completely too; otherwise it is closed after the answer (RFC 9112 9.3). Before the
+     \* fix the slot was reset: the body bytes, arriving next, were parsed as the head of the next request of the
+     \* connection - with a 5-byte body "hello" and the sentinel behind it: "helloGET /sentinel HTTP/1.1", Host a.
+     ELSE IF Early(c) /\ rl.method = "HEAD" /\ (st.bs = "chunked" \/ (st.bs = "len" /\ st.len > 0)) THEN
+          IF Dev("ReuseFrontUnread") /\ st.bs = "len" /\ ~st.close
+          THEN Result("fwd", <<Req("helloGET", "/sentinel", "a", "none", 0)>>, WireReq("helloGET", "/sentinel", "1.1", "a", <<>>), TRUE, FALSE)
+          ELSE Result("early", <<>>, <<>>, TRUE, FALSE)
      \* from here on the method is an opaque token: a body is framed by Content-Length / Transfer-Encoding for GET, HEAD,
      \* CONNECT ... exactly as for POST, and a request with neither has no body whatever its method (editor.rs)
      ELSE IF st.bs = "len" THEN
@@ -294,6 +317,8 @@ H2Bad == {"upper", "badname", "val:cr", "val:lf", "val:nul", "te:gzip",
 H2Cl == {"cl:5", "cl:3", "cl:plus", "cl:sp", "cl:empty", "cl:list"}
 H2Tok == H2Bad \cup H2Cl \cup {"host:a", "host:b", "te:trailers", "plain", "cookie"}
 DataShapes == {"es", "d5", "d3", "d6", "d5+1"}
+\* one more shape, in the method slices only: "rst" - HEADERS without END_STREAM, then the CLIENT abandons the stream
+\* (RST_STREAM CANCEL) instead of sending DATA; the sentinel follows. The request sozu may have begun to forward never ends.
 \* framing: trailer block carrying content-length / host (forwarded as trailer fields, never used for framing or routing)
 TrShapes == {"none", "plain", "ident", "framing", "pseudo", "cs", "badval", "noes"}
 
@@ -349,7 +374,7 @@ RECURSIVE H2Fold(_, _, _)
 \* decode_headers_with_budget: once invalid, later fields are skipped
 H2Fold(l, i, st) == IF i > Len(l) \/ st.inv THEN st ELSE H2Fold(l, i + 1, H2Step(st, l[i]))
 
-DataFrames(d) == CASE d = "es" -> <<>> [] d = "d5" -> <<5>> [] d = "d3" -> <<3>> [] d = "d6" -> <<6>> [] d = "d5+1" -> <<5, 1>>
+DataFrames(d) == CASE d \in {"es", "rst"} -> <<>> [] d = "d5" -> <<5>> [] d = "d3" -> <<3>> [] d = "d6" -> <<6>> [] d = "d5+1" -> <<5, 1>>
 RECURSIVE Sum(_)
 Sum(s) == IF s = <<>> THEN 0 ELSE Head(s) + Sum(Tail(s))
 
@@ -383,6 +408,14 @@ H2Run(c) ==
   IN IF headBad THEN rst(FALSE, FALSE)
      ELSE IF esOnHeaders /\ declared /\ st.len > 0 THEN rst(FALSE, FALSE)           \* END_STREAM with non-zero Content-Length
      ELSE IF st.path = "*" THEN Result("r404", <<SentinelH2>>, WireSentinelH2, FALSE, FALSE)   \* no frontend for path "*"
+     ELSE IF c.data = "rst" THEN
+          \* the head may be on a backend connection (Content-Length as declared, or chunked); the request never ends there.
+          \* mux/h1.rs end_stream: that connection goes back to the keep-alive pool only if the request was written
+          \* completely. Before the fix the RESPONSE alone decided: a HEAD answered from its head left a pooled connection
+          \* whose peer still expects the body, and the sentinel was written on it (read as that body, the rest as junk).
+          IF Dev("ReuseBackUnwritten") /\ st.method = "HEAD"
+          THEN Result("cancel", <<SentinelH2>>, (IF declared THEN headCl \o <<<<"raw", st.len>>>> ELSE headTe) \o <<<<"junk">>>>, TRUE, FALSE)
+          ELSE Result("cancel", <<SentinelH2>>, WireSentinelH2, TRUE, FALSE)
      ELSE IF esOnHeaders THEN
           IF declared THEN Result("fwd", <<R("cl", 0), SentinelH2>>, headCl \o WireSentinelH2, FALSE, FALSE)
           ELSE Result("fwd", <<R("cl", 0), SentinelH2>>, head0 \o WireSentinelH2, FALSE, FALSE)
@@ -451,9 +484,14 @@ H1Adm(c) ==
       closing == Has(c.hdrs, "conn:close")
       lists == {IF closing THEN <<Req(rl.method, rl.target, h, f, n)>> ELSE <<Req(rl.method, rl.target, h, f, n), SentinelH1>> : h \in hostsOk}
   IN IF must \/ bodyBad THEN [classes |-> {"r400", "close"}, fwd |-> {}, partial |-> bodyBad /\ ~must]
-     ELSE [classes |-> {"fwd"} \cup (IF may THEN {"r400", "close"} ELSE {}) \cup (IF c.rl = "star" THEN {"r404"} ELSE {})
-                             \cup (IF connect THEN {"r404", "r405", "r501"} ELSE {}),
-           fwd |-> lists, partial |-> c.chunk = "ext"]
+     \* A backend may answer HEAD from the head (RFC 9110 9.3.2: no content in the response, nothing of the request's content
+     \* is needed for it). A gateway that has relayed the complete answer need not wait for the rest of the request, but then
+     \* it must close the connection instead of reading what follows as a new request (RFC 9112 9.3): class "early", the
+     \* backend holds a prefix of the request and nothing after it.
+     ELSE LET earlyOk == c.m = "HEAD" /\ (chunked \/ (cls # <<>> /\ n > 0))
+          IN [classes |-> {"fwd"} \cup (IF may THEN {"r400", "close"} ELSE {}) \cup (IF c.rl = "star" THEN {"r404"} ELSE {})
+                             \cup (IF connect THEN {"r404", "r405", "r501"} ELSE {}) \cup (IF earlyOk THEN {"early"} ELSE {}),
+              fwd |-> lists, partial |-> c.chunk = "ext" \/ earlyOk]
 
 \* The method's part (RFC 9113): a CONNECT request carries :method and :authority only - with :scheme or :path it is
 \* malformed (8.5) and MUST be refused; in the prescribed form it may be refused (no tunnels here) or forwarded as
@@ -489,6 +527,9 @@ H2Adm(c) ==
       len == IF declared THEN n ELSE total
       r404 == IF c.ps = "path:star" THEN {"r404"} ELSE {}
   IN IF psMust \/ hdrMust THEN [classes |-> {"rst", "goaway"}, fwd |-> {}, partial |-> FALSE]
+     \* the client abandoned the stream: nothing to answer; whatever part of the request is on a backend connection stays a
+     \* prefix (that connection cannot carry another request); the request may also have been refused before the RST came
+     ELSE IF c.data = "rst" THEN [classes |-> {"cancel"} \cup r404 \cup (IF may THEN {"rst", "goaway", "r400", "r404"} ELSE {}), fwd |-> {}, partial |-> TRUE]
      ELSE IF bodyMust THEN [classes |-> {"rst", "goaway"} \cup r404, fwd |-> {}, partial |-> ~es0]
      ELSE [classes |-> {"fwd"} \cup (IF may THEN {"rst", "goaway", "r400", "r404"} ELSE {}),
            fwd |-> {<<Req(m, t, host, f, len), SentinelH2>>}, partial |-> FALSE]
@@ -518,6 +559,9 @@ H1MethodCases ==
   \cup {H1Case("abs:b", m, "a", s, "valid") : m \in Methods, s \in {<<>>, <<"cl:5">>}}
   \cup {H1Case(r, m, "a", <<"te:chunked">>, k) : r \in {"ok", "auth"}, m \in Methods, k \in ChunkShapes \ {"valid"}}
   \cup {H1Case(r, m, "a", s, "valid") : r \in {"ok", "auth"}, m \in Methods, s \in {<<"conn:close">>, <<"cl:5", "conn:close">>}}
+  \* the backend answers from the head before the announced body has arrived (environment choice `early`)
+  \cup {H1Case("ok", m, h, s, "valid") @@ [early |-> TRUE] :
+           m \in {"HEAD", "GET", "POST"}, h \in {"a", "b"}, s \in {<<"cl:5">>, <<"cl:3">>, <<"te:chunked">>, <<"cl:5", "conn:close">>}}
 
 \* triples of the framing-relevant tokens (order matters between Content-Length and Transfer-Encoding fields); part of
 \* every tier, subsumed by the wide slice when MaxHdr >= 3
@@ -542,6 +586,8 @@ H2MethodCases ==
                                           s \in {<<>>, <<"cl:5">>, <<"cl:3">>, <<"cl:5", "cl:5">>, <<"cl:5", "cl:3">>, <<"plain">>},
                                           d \in DataShapes, t \in {"none", "plain", "framing", "badval", "noes"}}
           : x.data # "es" \/ x.tr = "none"}
+  \* the client abandons the stream after HEADERS without END_STREAM
+  \cup {H2Case(p, m, s, "rst", "none") : p \in {"ok", "auth:b", "nopath"}, m \in Methods, s \in {<<>>, <<"cl:5">>, <<"cl:3">>}}
 
 Cases == H1Cases \cup H2Cases \cup H1Triples \cup H2Triples \cup H1MethodCases \cup H2MethodCases
 
